@@ -95,16 +95,18 @@ def _new_acc():
 
 
 def _account(acc, scenario, result, keep_digest, want_sample):
-    acc["n"] += 1
+    acc["n"] += result.weight
     acc["ticks"] += result.ticks
     for key, value in result.probes.items():
         acc["probes"][key] = acc["probes"].get(key, 0) + value
     for key, value in result.faults.items():
         acc["faults"][key] = acc["faults"].get(key, 0) + value
     if result.nontrivial:
-        acc["nontrivial"] += 1
+        acc["nontrivial"] += 1 if not result.extra_sigs else len(result.extra_sigs)
         if result.schedule_sig is not None:
             acc["sigs"].add(core.short_hash(result.schedule_sig))
+        for extra in result.extra_sigs:
+            acc["sigs"].add(extra if isinstance(extra, bytes) else core.short_hash(extra))
     for state in result.state_sigs:
         acc["states"].add(core.short_hash(state))
     if keep_digest:
